@@ -9,7 +9,7 @@ import numpy as np
 from vlib import gen, qgates
 from vlib.driver import run_driver
 from vlib.proofs import build_and_audit, registry
-from vlib.symtrace import S, BranchOnSymbol, Untranslatable, const, evaluate
+from vlib.symtrace import S, BranchOnSymbol, Untranslatable, const, evaluate, tree, lean as lean_tree, simplify
 
 PROP = "C10"
 
@@ -241,6 +241,7 @@ def trace_obligations(ctx):
     aliases = []  # (label, first label with the same Lean term)
     rows = []  # (table index, class name, obligation label, is the generic branch) of the entry obligations of tabs[PROP]
     TRACED.clear()
+    SYMROWS.clear()
 
     def emit(tab, label, name, k, nq, out, ref, ns=None):
         out = as_list(out)
@@ -269,13 +270,21 @@ def trace_obligations(ctx):
                     # the traced row (every branch), kept for the instance check of the real rows
                     # (faithful_suite): matrices / qubits of the emitted gates as trees in the parameters
                     TRACED.setdefault(row, []).append((label + blabel, k, params, [(x.__class__.__name__, qgates.sgate_of(x)) for x in as_list(out)]))
-                costly = expensive or blabel.count("_p") >= 2
+                # entry rows are never left to the thorough tier: the concrete tables (C10_sym) need every branch
+                costly = expensive or (blabel.count("_p") >= 2 and row is None)
                 if costly and not ctx.thorough:
                     ctx.stat("kernel_obligations_left_to_thorough")
                     continue
                 emit(tabs[THOROUGH_PROP if costly else PROP], label + blabel, name, k, nq, out, ref, ns)
                 if row is not None and not costly:
                     rows.append((row[0], name, label + blabel, blabel == ""))
+                    try:
+                        SYMROWS.append({"tab": row[0], "name": name, "label": label + blabel, "k": k, "ncons": blabel.count("_p"),
+                                        "key": [tree(p_) for p_ in params],
+                                        "gates": [(x.__class__.__name__, list(x.qubits), [tree(p_) for p_ in x.parameters],
+                                                   bool(x.is_controlled_by)) for x in as_list(out)]})
+                    except Untranslatable:
+                        ctx.stat("concrete_row_untranslatable_parameters")
         except (Untranslatable, BranchOnSymbol) as e:
             ctx.ob(label, False, "translator", f"{type(e).__name__}: {e}")
 
@@ -344,11 +353,16 @@ def trace_obligations(ctx):
                       needs=[f"{prop}_entries_ok"], imports=["QV.Props.C10b"])
         if prop == PROP:
             end_to_end(tab, rows, dict(aliases), infos)
-        status, passed = tab.emit(extra_imports=["QV.Model.Unroller", "QV.Model.ZYZ"])
+            concrete_tables(ctx, tab, dict(aliases), infos)
+            kak_obligations(ctx, tab)
+        status, passed = tab.emit(extra_imports=["QV.Model.Unroller", "QV.Model.ZYZ", "QV.Model.SymTable", "QV.Model.KAK"])
         if prop == PROP:
             ctx.stats["rows_in_generated_unroll_circuit"] = len([c for c in tab.cor_names if c.startswith("C10_row_")])
             ctx.ob("C10_unroll_circuit", "C10_unroll_circuit" in tab.cor_names, "generated-kernel",
                    "" if "C10_unroll_circuit" in tab.cor_names else "the end-to-end corollary was not emitted")
+            concrete_report(ctx, tab)
+            ctx.ob("C10_kak_reconstruction", "C10_kak_reconstruction" in tab.cor_names, "generated-kernel",
+                   "" if "C10_kak_reconstruction" in tab.cor_names else "the reconstruction identity at the traced cnot_decomposition was not emitted")
         ctx.stats[f"{prop}_obligations_with_simulator_reading"] = len([c for c in tab.cor_names if c.endswith("_single")])
         for name, expr, meta in tab.obs:
             ok, sup = status.get(name, (False, False))
@@ -367,6 +381,8 @@ def trace_obligations(ctx):
     return raised
 
 
+SYMROWS = []  # the traced rows with the PARAMETER EXPRESSIONS of the emitted gates (concrete tables, QV/Model/SymTable.lean)
+CONCRETE = {}  # filled by concrete_tables: the rows that went into the generated `C10_sym`
 TRACED = {}  # (table index, class name) -> [(label, np, params, [(class name, traced sgate)])], filled by trace_obligations
 
 
@@ -422,6 +438,183 @@ def end_to_end(tab, rows, alias, infos):
         f"    (∀ y ∈ out, QV.Unroll.passThrough y.cls = true ∨ QV.Unroll.WellPlaced {ar} y)",
         f"fun T ρ hF nat hC fuel gs out hgs h =>\n    QV.Props.C10.T10_unroll_circuit_of_rows C10_rows {ar} {cm} C10_rows_ok T ρ hF nat hC fuel gs out hgs h",
         needs=["C10_rows_ok", "C10_classMats"], imports=["QV.Props.C10c"])
+
+
+def concrete_tables(ctx, tab, alias, infos):
+    """CONCRETE TABLES (generated): `C10_sym : QV.Unroll.SymTables` = the six translation tables as a Lean value of the
+    dispatch model's table type (QV/Model/SymTable.lean; `QV.Props.C10.toTables C10_sym ρ : QV.Unroll.Tables`): one row per
+    traced branch of every entry, emitted gates with their class, template qubits and PARAMETER EXPRESSIONS (the traced
+    `parameters` of the emitted gate objects as trees in the key gate's parameters).  Kernel obligations per row
+    (`C10_symrow_k_ok`): every emitted gate's traced matrix = its class matrix at those expressions, the key gate = the
+    class matrix on that branch, real parameters, arities.  Corollaries: `C10_sym_check`, `C10_sym_rows_ok`,
+    `C10_sym_closed` (the 8 native sets) and `C10_unroll_concrete` = QV.Props.C10.T10_unroll_concrete at `C10_sym`:
+    no table hypothesis left."""
+    canon = lambda lab: alias.get(lab, lab)
+    obnames = {n for n, _, _ in tab.obs}
+    CONCRETE.clear()
+    CONCRETE.update({"rows": [], "abstract": [], "emitted": False})
+    srows = [r for r in SYMROWS if canon(r["label"]) in obnames]
+    # class matrix of a class = key gate of its first generic row (as in end_to_end)
+    first = {}
+    for r in srows:
+        if r["ncons"] == 0:
+            first.setdefault(r["name"], canon(r["label"]))
+    usable = []
+    for r in srows:
+        why = None
+        if r["name"] not in first:
+            why = "no generic row for the key class"
+        for cname, qs, ps, cb in r["gates"]:
+            if cb:
+                why = "emits a controlled_by gate"
+            elif cname not in first:
+                why = f"no traced class matrix for the emitted class {cname}"
+            elif cname not in infos or not infos[cname].generic or infos[cname].nq != len(qs):
+                why = f"emitted class {cname} has no fixed arity"
+        if why:
+            CONCRETE["abstract"].append((TABLE_NAMES[r["tab"]], r["name"], r["label"], why))
+        else:
+            usable.append(r)
+    # special branches (more constraints) before the generic row of the same table and class
+    order = sorted(range(len(usable)), key=lambda i: (usable[i]["tab"], cid(usable[i]["name"]), -usable[i]["ncons"], i))
+    usable = [usable[i] for i in order]
+    width = max([len(r["gates"]) for r in usable] + [0]) + 1
+    lt = lambda t: lean_tree(simplify(t))
+    tab.define("C10_arL", "List (Nat × Nat)",
+               "[" + ", ".join(f"({cid(n)}, {i.nq})" for n, i in sorted(infos.items()) if i.generic) + "]")
+    tab.define("C10_cmL", "List (Nat × List (List Ex))",
+               "[" + ", ".join(f"({cid(nm)}, (o_{lab}.rs.headD default).mat)" for nm, lab in sorted(first.items())) + "]")
+    ar, cm = "(QV.Unroll.arOfL C10_arL)", "(QV.Unroll.cmOfL C10_cmL)"
+    masks = [mask_of(ns) for _, ns, _, _ in native_sets()]
+    tab.define("C10_nativeSets", "List Nat", "[" + ", ".join(map(str, masks)) + "]")
+    names = []
+    for k, r in enumerate(usable):
+        rn = f"C10_symrow_{k}"
+        gates = ", ".join("{ cls := %d, qubits := %s, params := [%s] }" % (cid(c), list(qs), ", ".join(lt(p_) for p_ in ps))
+                          for c, qs, ps, _ in r["gates"])
+        tab.define(rn, "QV.Unroll.SymRow",
+                   "{ tab := %d, cls := %d, keyParams := [%s],\n    gates := [%s],\n    ob := o_%s }"
+                   % (r["tab"], cid(r["name"]), ", ".join(lt(p_) for p_ in r["key"]), gates, canon(r["label"])))
+        tab.ob(rn + "_ok", f"QV.Unroll.symRowCheck {ar} {cm} {width} {rn}", gate=r["name"], row=r["label"])
+        tab.ob(rn + "_closed", f"C10_nativeSets.all (fun n => QV.Unroll.rowClosedB n {rn})", gate=r["name"], row=r["label"])
+        lab = canon(r["label"])
+        tab.corollary(f"C10_crow_{k}", f"QV.Props.C10.RowOK {ar} ({rn}.tab, {rn}.cls, {rn}.ob)",
+                      f"⟨{lab}_single, by decide +kernel⟩", needs=[f"{lab}_single", rn + "_ok", rn + "_closed"])
+        names.append((k, rn, r))
+    avail = lambda have: [(k, rn, r) for k, rn, r in names if f"C10_crow_{k}" in have]
+    _, D, U = modules()
+    classes = "[" + ", ".join("[" + ", ".join(str(c) for c in sorted(cid(c.__name__) for c in getattr(D, t).decompositions)) + "]"
+                              for t in TABLE_NAMES) + "]"
+
+    def symdef(have):
+        CONCRETE["rows"] = [r for _, _, r in avail(have)]
+        CONCRETE["abstract"] += [(TABLE_NAMES[r["tab"]], r["name"], r["label"], "row obligation not proved")
+                                 for k, rn, r in names if f"C10_crow_{k}" not in have]
+        return "{ classes := " + classes + ",\n    rows := [" + ", ".join(rn for _, rn, _ in avail(have)) + f"],\n    width := {width} }}"
+    tab.corollary("C10_sym", "QV.Unroll.SymTables", symdef, kind="def")
+
+    def chain(prefix, suffix=""):
+        def proof(have):
+            t = "QV.forall_mem_nil _"
+            for k, rn, _ in reversed(avail(have)):
+                t = f"QV.forall_mem_cons_of {prefix}{k}{suffix}\n    ({t})"
+            return t
+        return proof
+    tab.corollary("C10_sym_rows_ok", f"∀ row ∈ C10_sym.rows, QV.Props.C10.RowOK {ar} (row.tab, row.cls, row.ob)",
+                  chain("C10_crow_"), needs=["C10_sym"], imports=["QV.Props.C10e"])
+    tab.corollary("C10_sym_check", f"QV.Unroll.SymTables.check C10_sym {ar} {cm} = true",
+                  lambda have: "List.all_eq_true.mpr\n    (" + chain("C10_symrow_", "_ok")(have) + ")", needs=["C10_sym"])
+    tab.corollary("C10_sym_closed", "∀ nat ∈ C10_nativeSets, QV.Unroll.SymTables.closedB C10_sym nat = true",
+                  lambda have: "QV.Props.C10.closedB_of_rows C10_sym C10_nativeSets\n    (" + chain("C10_symrow_", "_closed")(have) + ")",
+                  needs=["C10_sym"], imports=["QV.Props.C10e"])
+    tab.corollary(
+        "C10_unroll_concrete",
+        "∀ (base : Nat → Nat → ℝ) (nat : QV.Unroll.Natives), nat ∈ C10_nativeSets →\n"
+        "    ∀ (fuel : Nat) (gs out : List QV.Unroll.UGate),\n"
+        f"    (∀ g ∈ gs, QV.Unroll.passThrough g.cls = true ∨ QV.Unroll.WellPlaced {ar} g) →\n"
+        "    QV.Unroll.unroll (QV.Props.C10.toTables C10_sym (QV.Props.C10.extend C10_sym base)) nat fuel gs = some out →\n"
+        "    (∃ c : ℂ, ‖c‖ = 1 ∧ ∀ (ψ : Lab → ℂ) (x : Lab),\n"
+        f"      runCircuit (out.map (QV.Props.C10.semCls {cm} (QV.Props.C10.extend C10_sym base))) ψ x\n"
+        f"        = c * runCircuit (gs.map (QV.Props.C10.semCls {cm} (QV.Props.C10.extend C10_sym base))) ψ x) ∧\n"
+        "    (∀ y ∈ out, QV.Unroll.isNative nat y.cls = true ∨ (y ∈ gs ∧ QV.Unroll.passThrough y.cls = true)) ∧\n"
+        f"    (∀ y ∈ out, QV.Unroll.passThrough y.cls = true ∨ QV.Unroll.WellPlaced {ar} y)",
+        "fun base nat hn fuel gs out hgs h =>\n"
+        f"    QV.Props.C10.T10_unroll_concrete C10_sym {ar} {cm} C10_sym_check C10_sym_rows_ok base nat\n"
+        "      (C10_sym_closed nat hn) fuel gs out hgs h",
+        needs=["C10_sym_check", "C10_sym_rows_ok", "C10_sym_closed"], imports=["QV.Props.C10e"])
+
+
+def concrete_report(ctx, tab):
+    """obligations / stats of the generated concrete tables."""
+    rows_ = CONCRETE.get("rows", [])
+    emitted = "C10_unroll_concrete" in tab.cor_names
+    CONCRETE["emitted"] = emitted
+    ctx.stats["concrete_rows_in_C10_sym"] = len(rows_)
+    ctx.stats["concrete_rows_special_branch"] = len([r for r in rows_ if r["ncons"]])
+    ctx.stats["rows_left_abstract"] = len(CONCRETE.get("abstract", []))
+    for t in TABLE_NAMES:
+        ctx.stats[f"concrete_rows_{t}"] = len([r for r in rows_ if TABLE_NAMES[r["tab"]] == t])
+    ctx.ob("C10_unroll_concrete", emitted, "generated-kernel",
+           "" if emitted else "the corollary at the concrete tables was not emitted (a row check, a row obligation or the closure under a native set failed)")
+    absr = CONCRETE.get("abstract", [])
+    ctx.ob("C10_concrete_complete", not absr, "generated-kernel",
+           "" if not absr else "traced rows not in the concrete tables: " + "; ".join(f"{t}[{n}] ({lab}): {why}" for t, n, lab, why in absr[:6]))
+    ctx.notes.append("concrete tables C10_sym (generated): rows " + ", ".join(
+        sorted({f"{TABLE_NAMES[r['tab']]}[{r['name']}]" + (f"x{len([q for q in rows_ if q['tab'] == r['tab'] and q['name'] == r['name']])}" if len([q for q in rows_ if q['tab'] == r['tab'] and q['name'] == r['name']]) > 1 else "") for r in rows_}))
+        + "; numeric entries kept outside (entry = none in the concrete tables, covered by the abstract theorem + ZYZ theorem + search): "
+        + ", ".join(sorted(NUMERIC_CLASSES)))
+
+
+def kak_obligations(ctx, tab):
+    """ALGEBRAIC SKELETON of the two-qubit synthesis (generated kernel obligations): the real `cnot_decomposition` and
+    `cnot_decomposition_light` are run on SYMBOLIC hx, hy, hz (both qubit orders); the product of the emitted gates must be,
+    for all real h, a unit scalar times the canonical core `QV.KAK.udEx` = Ud(h) = exp(-i(hx XX + hy YY + hz ZZ))
+    (QV/Proofs/KAK.lean: udEx_eq, udMat_eq_exp), `hz = 0` for the light variant.  The only step of
+    `two_qubit_decomposition` left unproved is the numerical factorisation U = (u4 ⊗ v4) Ud (u1 ⊗ v1) itself
+    (certificate-checked on every input by kak_certificate)."""
+    from qibo.transpiler import unitary_decompositions as UD
+
+    gates, _, _ = modules()
+    sb = qgates.sym_backend()
+
+    class Proxy:  # the Unitary constructor's numeric unitarity test cannot run on symbolic matrices
+        def __getattr__(self, n):
+            if n == "Unitary":
+                return lambda u, *q, **kw: gates.Unitary(u, *q, check_unitary=False, **kw)
+            return getattr(gates, n)
+    old = UD.gates
+    UD.gates = Proxy()
+    try:
+        for name, fn, k, mat in (("cnot", UD.cnot_decomposition, 3, "QV.KAK.udEx"),
+                                 ("light", UD.cnot_decomposition_light, 2, "(substMat [.par 0, .par 1, .rat 0 1] QV.KAK.udEx)")):
+            for q in ((0, 1), (1, 0)):
+                label = f"C10_kak_{name}_{q[0]}{q[1]}"
+                try:
+                    gl = fn(q[0], q[1], *[S.par(i) for i in range(k)], sb)
+                    ls = [qgates.sgate_of(x) for x in gl]
+                except (Untranslatable, BranchOnSymbol) as e:
+                    ctx.ob(label, False, "translator", f"{type(e).__name__}: {e}")
+                    continue
+                l = "[" + ",\n   ".join(gen.sgate(*g) for g in ls) + "]"
+                tab.define(f"o_{label}", "Ob",
+                           f"{{ np := {k}, n := 2,\n      ls := {l},\n      rs := [{{ mat := {mat}, targets := {list(q)} }}],\n      mode := .phase }}")
+                tab.ob(label, f"Ob.check o_{label}", supported=f"Ob.supported o_{label}", sem=f"QV.Ob.check_sound o_{label} {label}",
+                       run=(f"QV.Ob.RunStmt o_{label}", f"QV.Ob.runStmt_of_check o_{label} (by decide +kernel) {label}"), gate="Unitary")
+                tab.corollary(f"{label}_single", f"QV.Ob.SingleStmt o_{label}",
+                              f"QV.Ob.singleStmt_of_check o_{label} (by decide +kernel) {label}", needs=[label])
+                ctx.stat("kak_template_obligations")
+    finally:
+        UD.gates = old
+    tab.corollary(
+        "C10_kak_reconstruction",
+        "∀ (θ : Nat → ℝ) (u1 v1 u4 v4 : Nat → Nat → ℂ),\n"
+        "    QV.Unroll.PhaseEq QV.unitPhases\n"
+        "      (QV.Props.C10.dressGeneral (o_C10_kak_cnot_01.ls.map (QV.SGate.toMGate θ)) 0 1 u1 v1 u4 v4)\n"
+        "      ([QV.Props.C10.u1q u1 0, QV.Props.C10.u1q v1 1] ++ [o_C10_kak_cnot_01.refGate.toMGate θ] ++\n"
+        "        [QV.Props.C10.u1q u4 0, QV.Props.C10.u1q v4 1])",
+        "fun θ u1 v1 u4 v4 =>\n"
+        "    QV.Props.C10.T10_kak_dressing_ob o_C10_kak_cnot_01 (by decide +kernel) C10_kak_cnot_01_single θ u1 v1 u4 v4",
+        needs=["C10_kak_cnot_01_single"], imports=["QV.Props.C10f"])
 
 
 def extra_generated(ctx):
@@ -1147,6 +1340,114 @@ def unitary_search(ctx):
         ctx.ob(obn, not hit, "search", "" if not hit else "failing inputs found: " + ", ".join(hit[:4]))
 
 
+def kak_certificate(ctx):
+    """CERTIFICATE CHECK of the numerical factorisation (the one step of `two_qubit_decomposition` that is not proved):
+    for every input on which the real function returns, the real helper functions are re-run along the same control flow
+    and (1) the returned factors are checked a posteriori: u4, v4, u1, v1 unitary, U = (u4 ⊗ v4) ud (u1 ⊗ v1), ud = Ud(h)
+    for the h of `calculate_h_vector` (residual norms); (2) the emitted gate list is compared, gate by gate (1e-9), with the
+    MODEL's dressing of the template (QV.Props.C10.dressGeneral / T10_kak_dressing: the real cnot_decomposition(_light) at
+    that h — proved equal to Ud(h) for all h by the kernel obligations C10_kak_* — merged with the factors);
+    (3) the reconstruction (u4 ⊗ v4) Ud(h) (u1 ⊗ v1) is compared with U up to a phase (1e-6)."""
+    from qibo.transpiler import unitary_decompositions as UD
+
+    gates, D, U = modules()
+    nb = qgates.np_backend()
+    rng = ctx.rng
+    Hm = np.array([[1, 1], [1, -1]], dtype=complex) / math.sqrt(2)
+    mats = list(corpus_2q(rng).items()) + [(f"haar{i}", haar(rng, 4)) for i in range(40 if ctx.thorough else 12)]
+    fam = weyl_family(rng, ctx.thorough)
+    for lab, pat, h in (fam if ctx.thorough else rng.sample(fam, 40)):
+        a, b, c, d = (haar(rng, 2) for _ in range(4))
+        mats.append((f"bell_{lab}_{pat}", bell_core(*h)))
+        mats.append((f"dressed_{lab}_{pat}", np.kron(a, b) @ bell_core(*h) @ np.kron(c, d)))
+    bad_f, bad_d, first_f, first_d = 0, 0, None, None
+    unit = lambda m: float(np.linalg.norm(np.conj(np.asarray(m)).T @ np.asarray(m) - np.eye(len(m))))
+    for label, M in mats:
+        M = np.array(M, dtype=complex)
+        try:
+            gl = UD.two_qubit_decomposition(0, 1, M.copy(), backend=nb)
+        except Exception as e:
+            ctx.stat("kak_cert_refused" if is_magic_basis_refusal(e) else "kak_cert_raised")  # reported by unitary_search / weyl_search
+            continue
+        ctx.case(("kak_cert", label))
+        try:
+            ud_diag = UD.to_bell_diagonal(M.copy(), backend=nb)
+            fac = None
+            if ud_diag is None:
+                fac = [np.asarray(x, dtype=complex) for x in UD.magic_decomposition(M.copy(), backend=nb)]
+                ud_diag = UD.to_bell_diagonal(fac[2], backend=nb)
+            hx, hy, hz = (float(x) for x in UD.calculate_h_vector(ud_diag, backend=nb))
+            core = bell_core(hx, hy, hz)
+            zero_h = bool(np.allclose([hx, hy, hz], [0, 0, 0]))
+            if zero_h:
+                fac0 = [np.asarray(x, dtype=complex) for x in UD.magic_decomposition(M.copy(), backend=nb)]
+                u4, v4, ud, u1, v1 = fac0
+                expected = [("Unitary", (0,), u4 @ u1), ("Unitary", (1,), v4 @ v1)]
+                recon = np.kron(u4, v4) @ ud @ np.kron(u1, v1)
+                res = [unit(u4), unit(v4), unit(u1), unit(v1), float(np.linalg.norm(M - recon))]
+                tol = 1e-8
+                branch = "local"
+            else:
+                light = bool(np.allclose(hz, 0))
+                tpl = UD.cnot_decomposition_light(0, 1, hx, hy, backend=nb) if light else UD.cnot_decomposition(0, 1, hx, hy, hz, backend=nb)
+                tm = [(x.__class__.__name__, tuple(x.qubits), np.asarray(x.matrix(nb), dtype=complex)) for x in tpl]
+                # numeric instance of the kernel-proved template identity (guards the harness's reading of the theorem)
+                if not qgates.phase_equal(full_of(tpl, 2), bell_core(hx, hy, 0.0 if light else hz), 1e-8):
+                    raise RuntimeError("harness: the template does not reproduce Ud(h) although C10_kak_* is proved")
+                branch = ("light" if light else "general") + ("_bare" if fac is None else "")
+                if fac is None:
+                    expected = tm
+                    recon = core
+                    res = [float(np.linalg.norm(M - core))]
+                    tol = 2e-5  # to_bell_diagonal accepts off-diagonal parts up to 1e-6 per entry
+                else:
+                    u4, v4, ud, u1, v1 = fac
+                    if light:
+                        expected = [("Unitary", (0,), tm[0][2] @ u1), ("Unitary", (1,), tm[1][2] @ v1)] + tm[2:-2]
+                    else:
+                        expected = [("Unitary", (0,), u1), ("Unitary", (1,), Hm @ v1)] + tm[1:-2]
+                    expected += [("Unitary", (0,), u4 @ tm[-2][2]), ("Unitary", (1,), v4 @ tm[-1][2])]
+                    recon = np.kron(u4, v4) @ core @ np.kron(u1, v1)
+                    res = [unit(u4), unit(v4), unit(u1), unit(v1), float(np.linalg.norm(M - np.kron(u4, v4) @ ud @ np.kron(u1, v1))),
+                           float(np.linalg.norm(ud - core))]
+                    tol = 2e-5 if res[-1] > 1e-8 else 1e-8
+                    res = [r for r in res]
+            ctx.stat("kak_cert_" + branch)
+        except RuntimeError:
+            raise
+        except Exception as e:
+            bad_f += 1
+            first_f = first_f or f"{label}: re-running the helper functions raises {type(e).__name__}: {e}"
+            continue
+        Mc = f"np.array({M.tolist()})"
+        replay = (REPLAY_PRE + f"from qibo.transpiler.unitary_decompositions import two_qubit_decomposition\nM = {Mc}\n"
+                  "gl = two_qubit_decomposition(0, 1, M.astype(complex), backend=nb)\n"
+                  "assert phase_equal(full(gl, 2), full([gates.Unitary(M, 0, 1)], 2), 1e-6)\n")
+        prop_ok = qgates.phase_equal(full_of(gl, 2), M, 1e-6)
+        okf = all(r <= tol for r in res) and qgates.phase_equal(recon, M, 1e-6)
+        if not okf:
+            bad_f += 1
+            first_f = first_f or f"{label} ({branch}): residuals {[float(f'{r:.2e}') for r in res]}"
+            if not prop_ok:
+                ctx.fail(f"kak:certificate:{label.rstrip('0123456789')}", f"two_qubit_decomposition of '{label}': the factors returned by the numerical "
+                         f"decomposition do not reconstruct the unitary (residuals {[float(f'{r:.2e}') for r in res]}) and the gate list is not the unitary up to a phase",
+                         replay, observed=str(res), broken=["C10_cert_kak_factors"])
+        same = len(expected) == len(gl) and all(
+            en == x.__class__.__name__ and tuple(eq) == tuple(x.qubits) and np.allclose(em, np.asarray(x.matrix(nb)), atol=1e-9)
+            for (en, eq, em), x in zip(expected, gl))
+        if not same:
+            bad_d += 1
+            first_d = first_d or f"{label} ({branch}): emitted {[(x.__class__.__name__, x.qubits) for x in gl]}"
+            if not prop_ok:
+                ctx.fail(f"kak:dressing:{branch}", f"two_qubit_decomposition of '{label}' ({branch} branch): the gate list is not the template for Ud(h) "
+                         "merged with the factors, and is not the unitary up to a phase", replay, observed=str([(x.__class__.__name__, x.qubits) for x in gl]),
+                         broken=["C10_cert_kak_dressing"])
+    ctx.ob("C10_cert_kak_factors", bad_f == 0, "certificate",
+           f"{bad_f} inputs whose factors fail the a-posteriori check, first: {first_f}" if bad_f else "")
+    ctx.ob("C10_cert_kak_dressing", bad_d == 0, "certificate",
+           f"{bad_d} inputs whose gate list is not the model's dressing of the template, first: {first_d}" if bad_d else "")
+
+
 # ---------------------------------------------------------------------------
 # (3b) the Weyl chamber: Bell-diagonal cores exp(-i(hx XX + hy YY + hz ZZ)) with every
 # zero / sign / equal / pi/4-multiple pattern, bare and dressed with local unitaries
@@ -1723,6 +2024,72 @@ def faithful_suite(ctx, shapes):
            f"{bad} real table rows are not instances of a traced row, first: {first}" if bad else "")
 
 
+def concrete_suite(ctx, shapes):
+    """the generated concrete tables `C10_sym` (the Lean value the corollary C10_unroll_concrete is about) against the real
+    tables: for every real row produced during the correspondence, the model's row selection (first row of that table and
+    class whose branch condition holds at the key gate's parameter values — Python twin of QV.Props.C10.entryOf) gives the
+    same classes, the same template qubits and PARAMETER VALUES equal to the row's parameter expressions evaluated at the
+    key gate's parameters (1e-9)."""
+    rows_ = CONCRETE.get("rows", [])
+    by = {}
+    for r in rows_:
+        by.setdefault((r["tab"], r["name"]), []).append(r)
+    bad, first, n, sel = 0, None, 0, 0
+    for i, tname in enumerate(TABLE_NAMES):
+        for (c, t), (g, tmpl) in sorted(shapes.real_rows[i].items()):
+            name = g.__class__.__name__
+            cands = by.get((i, name))
+            if not cands:
+                ctx.stat("concrete_untraced_class")
+                continue
+            try:
+                vals = [float(np.asarray(p_).real) for p_ in g.parameters]
+            except Exception:
+                continue
+            n += 1
+            ctx.case(("concrete", tname, name, t))
+            row = None
+            for r in cands:  # special branches first, exact comparison as in the code (`l != 0.0`, `t != -np.pi`)
+                if len(vals) == r["k"] and all(complex(evaluate(e, vals)) == v for e, v in zip(r["key"], vals)):
+                    row = r
+                    break
+            why = None
+            if row is None:
+                why = "no row of the concrete tables applies"
+            else:
+                if row["ncons"]:
+                    sel += 1
+                if len(row["gates"]) != len(tmpl):
+                    why = f"{len(tmpl)} gates, the concrete row {row['label']} has {len(row['gates'])}"
+                else:
+                    for (cname, qs, ps, cb), x in zip(row["gates"], tmpl):
+                        xp = [float(np.asarray(p_).real) for p_ in x.parameters]
+                        if cname != x.__class__.__name__ or list(qs) != list(x.qubits) or x.is_controlled_by or len(ps) != len(xp):
+                            why = f"emitted {x.__class__.__name__}{tuple(x.qubits)}, the concrete row {row['label']} has {cname}{tuple(qs)}"
+                            break
+                        if any(abs(complex(evaluate(e, vals)) - v) > 1e-9 for e, v in zip(ps, xp)):
+                            why = f"parameters {xp} of the emitted {cname} differ from the row's expressions at {vals}"
+                            break
+            if why:
+                bad += 1
+                first = first or f"{tname}[{name}{tuple(vals)}]: {why}"
+                nq = len(g.qubits)
+                try:
+                    ok = qgates.phase_equal(full_of(list(tmpl), nq), full_of([g], nq), 1e-7)
+                except Exception:
+                    ok = False
+                if not ok:
+                    code = make_code(name, list(g.qubits), vals)
+                    ctx.fail(f"operator:{name}:{tname}", f"the entry of {tname} for {code} is not the gate up to a global phase",
+                             REPLAY_PRE + f"from qibo.transpiler import decompositions as D\ng = {code}\nref = {code}\n"
+                             f"out = D.{tname}._check_instance(g, nb)\nassert phase_equal(full(out, {nq}), full([ref], {nq}), 1e-6)\n",
+                             observed=str([x.__class__.__name__ for x in tmpl]), broken=["C10_corr_concrete"])
+    ctx.stats["concrete_rows_compared"] = n
+    ctx.stats["concrete_special_branch_selected"] = sel
+    ctx.ob("C10_corr_concrete", bad == 0 and (n > 0 or not rows_), "correspondence",
+           f"{bad} real table rows differ from the generated concrete tables, first: {first}" if bad else "")
+
+
 def zyz_model(u):
     """Python twin of `QV.ZYZ.u3Angles` (QV/Proofs/ZYZ.lean), written with cmath only:
     npSqrt z = z ^ (1/2) = exp(log z / 2), arctan2 y x = arg (x + y i), numpy.angle = arg."""
@@ -1863,12 +2230,14 @@ def run(ctx):
     shapes = correspondence(ctx)
     unroll_correspondence(ctx, shapes)
     faithful_suite(ctx, shapes)
+    concrete_suite(ctx, shapes)
     zyz_suite(ctx)
     lap("correspondence")
     gate_search(ctx, raised)
     lap("gate_search")
     unitary_search(ctx)
     weyl_search(ctx)
+    kak_certificate(ctx)
     circuit_search(ctx)
     lap("unitary_circuit_search")
     history_search(ctx)
@@ -1877,6 +2246,12 @@ def run(ctx):
                        "seeded corpus, not proved; u3_decomposition's angle formulas are proved correct for every 2x2 unitary "
                        "(T10_u3_decomposition) about a transliteration over R/C (numpy.angle = Complex.arg, arctan2 y x = arg(x+iy), "
                        "numpy.sqrt = principal root) that is compared with the real function to 1e-9 on every run (zyz_suite)")
+    ctx.notes.append("two-qubit synthesis: PROVED = magic/Bell basis unitary and diagonalising a XX + b YY + c ZZ, exp(-i(hx XX+hy YY+hz ZZ)) = "
+                     "B diag(e^{-i lambda_k}) B^dagger (Mathlib matrix exponential), calculate_h_vector inverts lambda(h), the real "
+                     "cnot_decomposition / cnot_decomposition_light traced on symbolic h = unit scalar * Ud(h) for ALL h (kernel obligations "
+                     "C10_kak_*), reconstruction identity for the dressed gate list (T10_kak_dressing, generated C10_kak_reconstruction); "
+                     "CERTIFICATE-CHECKED per input (kak_certificate) = the numerical factorisation U = (u4 x v4) Ud(h) (u1 x v1) returned by "
+                     "magic_decomposition (LAPACK eig/qr, Schmidt), its unitarity, and that the emitted list is the model's dressing of the template")
     ctx.notes.append("end to end: generated C10_unroll_circuit (QV/Gen/C10_Sem.lean) = T10_unroll_circuit_of_rows instantiated with the "
                      "traced rows / class matrices / arities of the current source; its instance hypothesis `Faithful` is compared with "
                      "the real tables on every run (faithful_suite: every real row produced during the correspondence is an instance of a "
